@@ -160,6 +160,24 @@ class AgentExecutingComponent(rpu.AgentComponent):
 
     # --------------------------------------------------------------------------
     #
+    def is_canceled(self, task, advance=True):
+        '''
+        Tasks arrive here with slots assigned by the scheduler.  If a task is
+        dropped because it was canceled before we started to work on it, those
+        slots need to be freed.
+        '''
+
+        ret = super().is_canceled(task, advance=advance)
+
+        if ret and advance and task.get('slots'):
+            self._prof.prof('unschedule_start', uid=task['uid'])
+            self.publish(rpc.AGENT_UNSCHEDULE_PUBSUB, task)
+
+        return ret
+
+
+    # --------------------------------------------------------------------------
+    #
     def get_task(self, tid):
 
         raise NotImplementedError('get_task is not implemented')
